@@ -86,6 +86,37 @@ class Grammar:
         pa.start = prod.start
         pa.finals = dict(prod.returns)
         pa.errors = set(prod.error_nodes)
+        # raw form for the recogniser: speculation kept as ('m', origin) / ('r', origin) pseudo events
+        pa.redges = []
+        pa.rn = len(prod.node_info)
+        for e in prod.edges:
+            cur = e.src
+            seq = []
+            for ev in e.events:
+                if ev[0] == "consume":
+                    seq.append(("t", ev[1]))
+                elif ev[0] == "call":
+                    seq.append(("c", (ev[1], ev[2]), ev[3][0], ev[3][1]))
+                elif ev[0] == "mark":
+                    seq.append(("m", ev[1]))
+                elif ev[0] == "reset":
+                    seq.append(("r", ev[1]))
+                elif ev[0] == "guard":
+                    seq.append(("g", ev[1][0], ev[1][1]))
+            if not seq:
+                pa.redges.append((cur, None, e.dst))
+            for j, ev in enumerate(seq):
+                last = j == len(seq) - 1
+                if last:
+                    dst = e.dst
+                else:
+                    dst = pa.rn
+                    pa.rn += 1
+                pa.redges.append((cur, ev, dst))
+                cur = dst
+        pa.rout = {}
+        for i, (s_, ev, d) in enumerate(pa.redges):
+            pa.rout.setdefault(s_, []).append(i)
         for e in prod.edges:
             events = list(e.events)
             src = e.src
@@ -448,29 +479,39 @@ class Recognizer:
             pa = self.g.pa[k]
             res = set()
             seen = set()
-            stack = [(pa.start, pos)]
+            stack = [(pa.start, pos, ())]
             while stack:
-                x, p = stack.pop()
-                if (x, p) in seen:
+                cfg = stack.pop()
+                if cfg in seen:
                     continue
-                seen.add((x, p))
-                if not la_ok(pa.la[x], p):
+                seen.add(cfg)
+                x, p, marks = cfg
+                if x < pa.n and not la_ok(pa.la[x], p):
                     continue
                 if x in pa.finals:
                     res.add(p)
-                for i in pa.out.get(x, []):
-                    s, ev, d, _ = pa.edges[i]
+                for i in pa.rout.get(x, []):
+                    s, ev, d = pa.redges[i]
                     if ev is None:
-                        stack.append((d, p))
+                        stack.append((d, p, marks))
                     elif ev[0] == "t":
                         if p < n and toks[p] in ev[1]:
-                            stack.append((d, p + 1))
+                            stack.append((d, p + 1, marks))
+                    elif ev[0] == "m":
+                        stack.append((d, p, tuple(sorted(dict(marks, **{ev[1]: p}).items())) if False else tuple(sorted({**dict(marks), ev[1]: p}.items()))))
+                    elif ev[0] == "g":
+                        if la_ok((ev[1], ev[2]), p):
+                            stack.append((d, p, marks))
+                    elif ev[0] == "r":
+                        mp = dict(marks).get(ev[1])
+                        if mp is not None:
+                            stack.append((d, mp, marks))
                     else:
                         t1 = toks[p] if p < n else EOF
                         t2 = toks[p + 1] if p + 1 < n else EOF
                         if t1 in ev[2] and t2 in ev[3] and ev[1] in self.g.pa:
                             for q in ends(ev[1], p, depth + 1):
-                                stack.append((d, q))
+                                stack.append((d, q, marks))
             memo[mk] = res
             return res
 
